@@ -475,7 +475,14 @@ std::vector<double> GridGlobal::getCandidateConstructionPoints(std::function<dou
     for(int i=0; i<new_tensors.getNumIndexes(); i++)
         dynamic_values->addTensor(new_tensors.getIndex(i), [&](int l)->int{ return wrapper.getNumPoints(l); }, tweights[i]);
 
-    return MultiIndexManipulations::getIndexesToNodes(dynamic_values->getNodesIndexes(), wrapper);
+    std::vector<double> candidates = MultiIndexManipulations::getIndexesToNodes(dynamic_values->getNodesIndexes(), wrapper);
+
+    // samples delivered for tensors that are not among the candidates keep their tensors (clearTesnors() dropped them),
+    // otherwise a tensor that is already complete would never be considered again
+    dynamic_values->addTensorsOfStoredNodes([&](std::vector<int> const &p)->std::vector<int>{ return wrapper.getLevels(p); },
+                                            [&](int l)->int{ return wrapper.getNumPoints(l); });
+
+    return candidates;
 }
 std::vector<int> GridGlobal::getMultiIndex(const double x[]){
     std::vector<int> p(num_dimensions);
